@@ -135,5 +135,5 @@ def make_warmup_run(n, W):
 
 def obligations(tier):
     if tier == "quick":
-        return [make_warmup_run(2, 2), make_warmup_run(2, 3)]
+        return [make_warmup_run(2, 2), make_warmup_run(2, 3), make_warmup_run(3, 2)]
     return [make_warmup_run(2, 2), make_warmup_run(2, 3), make_warmup_run(3, 2), make_warmup_run(3, 3), make_warmup_run(2, 4)]
